@@ -2265,6 +2265,10 @@ class SQLCompiler(Compiled):
                     "%s%s%s" % (be_left, exp, be_right)
                     for exp in expr.split(", ")
                 )
+            if expr.startswith("-") and m.string[: m.start()].endswith("-"):
+                # negation of an inline negative literal; "--" would
+                # begin a comment
+                expr = " " + expr
             return expr
 
         statement = re.sub(
@@ -3704,7 +3708,12 @@ class SQLCompiler(Compiled):
         return text
 
     def _generate_generic_unary_operator(self, unary, opstring, **kw):
-        return opstring + unary.element._compiler_dispatch(self, **kw)
+        text = unary.element._compiler_dispatch(self, **kw)
+        if opstring == "-" and text.startswith("-"):
+            # e.g. negation of an inline negative literal; "--" would
+            # begin a comment
+            text = " " + text
+        return opstring + text
 
     def _generate_generic_unary_modifier(self, unary, opstring, **kw):
         return unary.element._compiler_dispatch(self, **kw) + opstring
